@@ -48,6 +48,10 @@ def run_ops(t, view, ops, out, prefix):
                     return '%d:%d:' % (a, b) + ','.join('1' if x else '0' for x in items)
                 return '%d:%d:' % (a, b) + ','.join(to_val(t[1], x) for x in items)
             out.append('%d.%s=%s' % (k, prefix, status(sl)))
+        elif o == 'iter':
+            out.append('%d.%s=%s' % (k, prefix, status(lambda: to_val(t, view, 'roiter'))))
+        elif o == 'nav':
+            out.append('%d.%s=%s' % (k, prefix, status(lambda: hexr(view.get_backing().getter(int(op[1]))))))
         elif o == 'len':
             out.append('%d.%s=%s' % (k, prefix, status(lambda: len(view))))
         elif o == 'bytes':
